@@ -64,6 +64,9 @@ CHECKS = {
     'C12': dict(engine='mtlens', technique='TLA+ specs IggyLogMT (operational: SendStart/Commit/SendEnd, PollStart/PollRead/PollEnd with a ghost history) and LogMTHistory (history-level statement) + TLC model checking that every history of the model satisfies the statement + TLC validation of histories recorded from multi-threaded stress runs of the real server',
                 text='Design: TLC checks that every complete history of the operational model (2 producers, 1 poller) satisfies the history predicates (total order of whole batches, producer order, polls are runs, no torn batch, no read from the future, acknowledged-implies-visible). Code: 2-4 producers and 1-3 pollers on their own TCP connections against a multi-thread server, with flushes and background saves, under {save threshold} x {segment size} x {cache} x {wait, no-wait}; every call is recorded with global sequence numbers and the recorded history is judged by the same predicates against the final content.',
                 ref='3.2, 7/C12'),
+    'C04': dict(engine='crashlens', category='fault_enumeration', technique='TLA+ spec IggyCrash (write order log -> index, crash after any mutation with torn last write, Recover; RecoverIsPrefix model-checked) + enumeration of crash images at every file mutation of real workloads (guarded hook) with torn variants, each recovered by a fresh server and judged by TLC against the recovery postcondition',
+                text='Fault enumeration: for workloads under {wait, no-wait} x {fsync} x {save threshold, segment size} the data directory is frozen after every individual file mutation (log append, index append, consumer-offset write, state-log append, segment creation) and torn variants of the last write are derived; every image is started with a fresh server, read, appended to and read again. TLC checks each recovery: start-up succeeds (a torn trailing state entry may be refused), the partition exposes a dense prefix of the accepted messages containing everything whose write had completed under wait-confirmation, the stored offset is a value that was stored, and the next message continues at the next offset.',
+                ref='7/C04'),
 }
 
 def main():
@@ -98,7 +101,9 @@ def main():
                  dict(name='wirelens', path='lib/wirelens.py + harness/src/wire_lens.rs + specs/IggyWire.tla, Trace_IggyWire.tla',
                       serves_properties=['C13'], kind_free_text='request round trips through the server decoder (hook H7), garbage frames'),
                  dict(name='mtlens', path='lib/mtlens.py + harness/src/mt_lens.rs + specs/IggyLogMT.tla, LogMTHistory.tla, Trace_IggyLogMT.tla',
-                      serves_properties=['C12'], kind_free_text='multi-threaded stress histories validated against a history-level specification')],
+                      serves_properties=['C12'], kind_free_text='multi-threaded stress histories validated against a history-level specification'),
+                 dict(name='crashlens', path='lib/crashlens.py + harness/src/crash_lens.rs + specs/IggyCrash.tla, Trace_IggyCrash.tla',
+                      serves_properties=['C04'], kind_free_text='crash images at every file mutation (hook H6) + torn variants, recovered and judged against the recovery postcondition')],
         checks=[],
         notes='See DESIGN.md. Exit codes: 0 held, 1 + VIOLATION line, 2 tool error. known-findings.json lists fixed and open findings.',
         not_applicable=[],
